@@ -433,6 +433,26 @@ def _nesting_rules(ctx, pm_, g, lp, node_var, pl, gl) -> None:
             break
         why = f"`if {norm(st.test)[:110]}` does not cover exactly the case 'increase owed and line not deeper than the opener'" + (
             f" (further conditions: {extra})" if extra else "")
+    if found is None:
+        # the same repair written inside the branches: every branch taken for an unchanged or decreased column leaves the
+        # opener (pop guarded by the pending flag) before it attaches the line
+        branches = []
+        for x in ast.walk(lp.ast):
+            if isinstance(x, ast.If):
+                for e, pol in atoms(x.test, True):
+                    if isinstance(e, ast.Compare) and len(e.ops) == 1 and isinstance(e.ops[0], (ast.Eq, ast.Lt)) and pol \
+                            and norm(e.left) == f"{node_var}.position.character" and isinstance(e.comparators[0], ast.Name):
+                        branches.append(x)
+        def _pops_first(br) -> bool:
+            for st in br.body:
+                if any(isinstance(c, ast.Call) and call_attr(c) == "append_child" for c in ast.walk(st)):
+                    return False
+                if isinstance(st, ast.If) and any(isinstance(e, ast.Name) and e.id == pending and pol for e, pol in atoms(st.test, True)) \
+                        and any(isinstance(y, ast.Assign) and norm(y) == f"{parent_var} = {parent_var}.parent" for y in st.body):
+                    return True
+            return False
+        if len(branches) >= 2 and all(_pops_first(b) for b in branches):
+            found = branches[0]
     if found is not None:
         ctx.ok("R17e", inst, {"rule": "R17e", "guard": norm(found.test)})
     else:
